@@ -9,7 +9,8 @@ _transposed_sweep, _mixed_split).  Engine: build/qmodel_c10n (coq/extract/Extrac
   qubit node (row + col even) must carry exactly numerator / D in every entry, a stabilizer node (row + col odd) exactly
   0 / 1; the model value is then the numerator of the coset probability over D^n.
 * tt.mps2d.contract of that network (step None / 1 / -1), of the transposed network, the decoder's split (all columns but
-  the last, inner product with the last) on both, and _coset_probabilities (modes c, r, a; chi, tol, stp unset) of
+  the last, inner product with the last) on both, and _coset_probabilities (modes c, r, a; chi, tol, stp unset, in rotation
+  over the documented spellings of 'unset' of harness/c10_spell.py: omitted / None / 0 / 0.0, keyword / positional / CLI) of
   PlanarMPSDecoder and PlanarRMPSDecoder against the model's sweep value: EXACTLY when the distribution consists of powers
   of two and the lattice is small enough for every float intermediate to be exact, to 1e-9 relative otherwise.
 * model value = exact coset sum computed independently by c10.GroupOracle (Python integers) on sizes with n <= 18.
@@ -303,6 +304,9 @@ def run_extra(ctx):
     # ---- comparison -----------------------------------------------------------------------------------------------
     tnc = PlanarMPSDecoder.TNC()
     rtnc = PlanarRMPSDecoder.TNC()
+    from harness import c10_spell
+    builder = c10_spell.Builder()
+    cycle = c10_spell.SpellCycle(builder)     # documented spellings of 'chi / stp / tol unset', round-robin
     oracles = {}
     kern_cand = {}
     first_bad = []
@@ -436,25 +440,35 @@ def run_extra(ctx):
             cand = [mv] + [int(x, 16) for x in replies[ci]['cand']]
             for dcls in (PlanarMPSDecoder, PlanarRMPSDecoder):
                 for mode in (('a',) if (dcls is PlanarRMPSDecoder and ctx.quick) else ('c', 'r', 'a')):
-                    dec = dcls(mode=mode)
+                    # the decoder "with chi, tol, stp unset" in one of the documented equivalent spellings (omitted / None / 0 /
+                    # 0.0; keyword / positional / command-line constructor string), in rotation
+                    sp = cycle.next(dcls.__name__, mode)
+                    repc = dict(rep0, construct=sp.record())
+                    try:
+                        dec = builder.construct(repc['construct'])
+                    except Exception as e:  # noqa
+                        ctx.violation('unset-spelling-constructor', 'a documented spelling of unset parameters is rejected: '
+                                      '%s raised %s' % (sp.text, c10m.exc_class(e)), repc)
+                        continue
                     try:
                         ps, _ = dec._coset_probabilities(tuple(dist), pauli.copy())
                     except Exception as e:  # noqa
-                        ctx.violation('exception', '_coset_probabilities raised ' + c10m.exc_class(e), dict(rep0, decoder=repr(dec)))
+                        ctx.violation('exception', '_coset_probabilities raised ' + c10m.exc_class(e), dict(repc, decoder=repr(dec)))
                         continue
                     ctx.count(None, False, '%s._coset_probabilities mode=%s vs model network' % (dcls.__name__, mode))
                     for k in range(4):
                         fr = frac_of(ps[k])
                         wk = Fraction(cand[k]) / Dn
                         if exact:
-                            ok = ctx.cmp('%s._coset_probabilities[%s] mode=%s' % (dcls.__name__, 'IXYZ'[k], mode), rep0,
+                            ok = ctx.cmp('%s._coset_probabilities[%s] mode=%s' % (dcls.__name__, 'IXYZ'[k], mode), repc,
                                          'None' if fr is None else hexz(fr * Dn) if (fr * Dn).denominator == 1 else str(fr * Dn), hexz(cand[k]))
                         else:
                             ok = fr is not None and abs(fr - wk) <= REL * wk
                         if not ok:
-                            ctx.violation('network-coset-probability', '%s mode=%s: coset %s probability %s, the model network of that '
-                                          'candidate contracts to %s' % (dcls.__name__, mode, 'IXYZ'[k], ps[k], float(wk)),
-                                          dict(rep0, decoder=repr(dec), coset='IXYZ'[k], got=str(ps[k]), expected=str(float(wk))))
+                            ctx.violation('network-coset-probability', '%s mode=%s (constructed as %s): coset %s probability %s, the '
+                                          'model network of that candidate contracts to %s'
+                                          % (dcls.__name__, mode, sp.text, 'IXYZ'[k], ps[k], float(wk)),
+                                          dict(repc, decoder=repr(dec), coset='IXYZ'[k], got=str(ps[k]), expected=str(float(wk))))
                             break
     ctx.extra['network_correspondence'] = {
         'engine_requests': len(req), 'networks': len(cases), 'site_tensors_compared': n_sites,
@@ -544,6 +558,20 @@ def replay_dict(rep):
             fr = frac_of(v)
             ok = fr is not None and abs(fr - mv) <= REL * mv
             print(name, 'contracts to', v, 'model', float(mv), 'OK' if ok else 'MISMATCH')
+            bad = bad or not ok
+    if rep.get('construct') and n <= 25:     # _coset_probabilities of the decoder in the recorded spelling of 'unset'
+        from harness import c10_spell
+        dec = c10_spell.Builder().construct(rep['construct'])
+        print('decoder constructed as', rep['construct']['text'], '=', repr(dec))
+        LX, LZ = code.logical_xs[0], code.logical_zs[0]
+        cands = [f, f ^ LX, f ^ LX ^ LZ, f ^ LZ]
+        mvs = ctx.model('c10n', ['sweep %d %d %s %s' % (rows, cols, bitstr(c), ' '.join(hexz(v) for v in a)) for c in cands])
+        ps, _ = dec._coset_probabilities(dist, pauli.copy())
+        for k in range(4):
+            wk = Fraction(int(mvs[k], 16)) / Fraction(D) ** n
+            fr = frac_of(ps[k])
+            ok = fr is not None and abs(fr - wk) <= REL * wk
+            print('coset', 'IXYZ'[k], 'impl', ps[k], 'model network', float(wk), 'OK' if ok else 'MISMATCH')
             bad = bad or not ok
     print('REPRODUCED' if bad else 'not reproduced')
     return 1 if bad else 0
